@@ -137,15 +137,15 @@ def _mk_variant(ti, v):
     return var
 
 
-def _add_tree(ti, container, v):
-    var = _mk_variant(ti, v)
+def _add_tree(ti, container, v, owner=None):
+    var = _mk_variant(owner or ti, v)           # (owner: the variant object was made for ANOTHER tree and is added to this one)
     container.add(var)
     for c in v["children"]:
-        _add_tree(ti, var, c)
+        _add_tree(ti, var, c, owner)
     return var
 
 
-def build(spec, _pollute=True):
+def build(spec, _pollute=True, _owner=None):
     if _pollute:
         # an unrelated object of the same classes is built first: class- or module-level state must not leak into this one
         build(seed_layered(), _pollute=False)
@@ -160,7 +160,7 @@ def build(spec, _pollute=True):
     ti.tree.arch, ti.tree.build_timestamp = t["arch"], t["build_timestamp"]
     ti.tree.platforms = set(t["platforms"])
     for v in spec["variants"]:
-        _add_tree(ti, ti.variants, v)
+        _add_tree(ti, ti.variants, v, owner=_owner)
     for platform, table in spec["images"].items():
         ti.images.images[platform] = dict(table)
     ti.stage2.mainimage, ti.stage2.instimage = spec["stage2"]["mainimage"], spec["stage2"]["instimage"]
@@ -244,7 +244,7 @@ def edits(spec, seed=0, max_depth=3, with_float=False, with_main=False):
     for a in ("x86_64", "src", "aarch64"):
         if spec["tree"]["arch"] != a and not spec["images"]:
             out.append(["arch", a])
-    for t in TIMESTAMPS + ([1417653911.75, 0.5] if with_float else []):
+    for t in TIMESTAMPS + ([1417653911.75, 0.5, -1, -5.5] if with_float else []):
         if spec["tree"]["build_timestamp"] != t:
             out.append(["timestamp", t])
     for p in PLATFORM_POOL:
@@ -291,7 +291,7 @@ def edits(spec, seed=0, max_depth=3, with_float=False, with_main=False):
     for mi, ii in ((None, None), ("LiveOS/squashfs.img", None), (None, "images/inst.img"), ("images/install.img", "images/inst.img")):
         if (spec["stage2"]["mainimage"], spec["stage2"]["instimage"]) != (mi, ii):
             out.append(["stage2", mi, ii])
-    for m in (None, {"discnum": 1, "totaldiscs": 1}, {"discnum": 2, "totaldiscs": 3}):
+    for m in (None, {"discnum": 1, "totaldiscs": 1}, {"discnum": 2, "totaldiscs": 3}, {"discnum": 2, "totaldiscs": 2}):
         if spec["media"] != m:
             out.append(["media", m])
     if len(spec["checksums"]) < 3:
